@@ -146,7 +146,7 @@ def run(ctx):
         if np.any(np.isclose(wav, lw[0])) or np.any(np.isclose(wav, lw[-1])):
             ctx.rmdir(d)
             continue
-        law = gen.build_law(lw, lc)
+        law = gen.build_law(lw, lc, wav_unit=[None, u.nm, u.AA, u.cm][(ip // 2) % 4])          # the law's wavelengths may be tabulated in any length unit
         k = O.ext_pattern(lw, lc, wav)
         if np.max(np.abs(k)) < 1e-3:
             ctx.rmdir(d)
